@@ -113,7 +113,7 @@ func vfC14(c *hx.Ctx) {
 		ds, ps int
 	}
 	classes := []class{{"", 0, 0}, {"aes-128", 0, 0}, {"aes-gcm", 0, 0}, {"", 2, 1}, {"aes-128", 3, 2}, {"aes-gcm", 1, 1},
-		{"twofish", 0, 0}, {"blowfish", 2, 1}, {"salsa20", 0, 0}} // pure-Go block ciphers (16- and 8-byte blocks): their feedback buffers are visible to ThreadSanitizer, AES assembly is not
+		{"twofish", 0, 0}, {"blowfish", 2, 1}, {"salsa20", 0, 0}, {"sm4", 0, 0}, {"3des", 0, 0}, {"cast5", 2, 1}, {"tea", 0, 0}, {"xtea", 0, 0}, {"xor", 0, 0}, {"none", 0, 0}} // pure-Go block ciphers (16- and 8-byte blocks): their feedback buffers are visible to ThreadSanitizer, AES assembly is not
 	closes := []string{"none", "client", "server", "listener"}
 	n := len(classes) * len(closes)
 	per := (n + max(c.Of, 1) - 1) / max(c.Of, 1)
